@@ -32,6 +32,8 @@ def strs (l : List String) : Sexp := Sexp.list (l.map Sexp.atom)
   C14 decode (sizes…) m                the % / // loop
   C14 pick (w…) r                      flat_sample for one row of linear weights (source's current variant)
   C14 variant                          the generated variant
+  C14 delta-subset (sizes…) (mask…) (pt…) (w…) (f flat…) (x…)
+        → specIntegrate modelIntegrate specReduce(unit mass on the reduced names) modelReduce
   C14 sample ((name size)…) (data…) (sampled…) nParticles (r…)
         → (batch names) (event names) (particle…), particle = (row…),
           row = ((b…) (pt…) z massOfSample massOfOriginal)
@@ -78,6 +80,22 @@ def handle (args : List Sexp) : String :=
     match asRats? w, ratOfSexp? r with
     | some w, some r => "ok " ++ toString (pickCellV FV.Gen.C14.variant w r)
     | _, _ => "err bad-args"
+  | [Sexp.atom "delta-subset", sizes, mask, pt, ws, fdata, x] =>
+    match sizes.asNats?, mask.asList?.bind (fun l => l.mapM Sexp.asBool?), pt.asNats?, asRats? ws,
+          asRats? fdata, x.asNats? with
+    | some sizes, some mask, some pt, some ws, some fdata, some x =>
+      let k := sizes.length
+      if mask.length ≠ k ∨ pt.length ≠ k ∨ ws.length ≠ k ∨ x.length ≠ k ∨ fdata.length ≠ prod sizes
+          ∨ !(List.zip pt sizes).all (fun (p, s) => p < s) ∨ !(List.zip x sizes).all (fun (p, s) => p < s)
+      then "err bad-args"
+      else
+        let f : List Nat → Rat := fun t => (fdata[encode sizes t]?).getD 0   -- in range on every use
+        let unitWs := (List.zip mask ws).map fun (m, w) => if m then 1 else w
+        "ok " ++ toString (ratToSexp (sumMask sizes mask (fun t => deltaProd pt ws t * f t) x)) ++ " "
+          ++ toString (ratToSexp (deltaIntegrateSubset mask pt ws f x)) ++ " "
+          ++ toString (ratToSexp (sumMask sizes mask (fun t => deltaProd pt unitWs t * f t) x)) ++ " "
+          ++ toString (ratToSexp (deltaReduceSubset mask pt ws f x))
+    | _, _, _, _, _, _ => "err bad-args"
   | [Sexp.atom "variant"] =>
     let v := FV.Gen.C14.variant
     "ok " ++ (match v.cmp with | Cmp.lt => "lt" | Cmp.le => "le") ++ " " ++ toString v.dropLast ++ " "
